@@ -69,7 +69,7 @@ theorem c14_one_timeout_feedback (p : Prog) (sched : List Act) (hdone : (run p s
   have h := inv_run p sched
   obtain ⟨hl, -, -, htimed, hexit, -, hfb, -⟩ := h
   generalize run p sched = s at *
-  rcases s with ⟨gpc, tpc, claim, pending, tExit, timedOut, patches, stdouts, sysStdout, buf1, buf2, real, raw, out1, out2, ctxs, id1, id2, nextId, exc, feedback, excAtReturn, depthAtReturn, excBeforeNext, e2Escaped⟩
+  rcases s with ⟨gpc, tpc, claim, pending, tExit, timedOut, patches, stdouts, sysStdout, buf1, buf2, real, raw, out1, out2, ctxs, id1, id2, nextId, exc, feedback, excAtReturn, depthAtReturn, excBeforeNext, e2Escaped, e1Escaped⟩
   simp only at hdone hl htimed hexit hfb ⊢
   subst hdone
   rcases claim with _ | (_ | _) <;> cases tpc <;> cases tExit <;>
@@ -85,7 +85,7 @@ theorem c14_exception_is_timeout (p : Prog) (sched : List Act) (ht : (run p sche
   have h := inv_run p sched
   obtain ⟨hl, -, -, htimed, -, -, -, hexc, -, -, -, -, -, -, -, hret, -, hbefore, -⟩ := h
   generalize run p sched = s at *
-  rcases s with ⟨gpc, tpc, claim, pending, tExit, timedOut, patches, stdouts, sysStdout, buf1, buf2, real, raw, out1, out2, ctxs, id1, id2, nextId, exc, feedback, excAtReturn, depthAtReturn, excBeforeNext, e2Escaped⟩
+  rcases s with ⟨gpc, tpc, claim, pending, tExit, timedOut, patches, stdouts, sysStdout, buf1, buf2, real, raw, out1, out2, ctxs, id1, id2, nextId, exc, feedback, excAtReturn, depthAtReturn, excBeforeNext, e2Escaped, e1Escaped⟩
   simp only at ht hl htimed hexc hret hbefore ⊢
   subst ht
   rcases claim with _ | (_ | _) <;> cases gpc <;>
@@ -103,7 +103,7 @@ theorem c14_stacks_clean_after (p : Prog) (sched : List Act) :
   have h := inv_run p sched
   obtain ⟨-, hstk, -, -, -, -, -, -, -, -, -, -, -, -, -, -, hdepth, -, -⟩ := h
   generalize run p sched = s at *
-  rcases s with ⟨gpc, tpc, claim, pending, tExit, timedOut, patches, stdouts, sysStdout, buf1, buf2, real, raw, out1, out2, ctxs, id1, id2, nextId, exc, feedback, excAtReturn, depthAtReturn, excBeforeNext, e2Escaped⟩
+  rcases s with ⟨gpc, tpc, claim, pending, tExit, timedOut, patches, stdouts, sysStdout, buf1, buf2, real, raw, out1, out2, ctxs, id1, id2, nextId, exc, feedback, excAtReturn, depthAtReturn, excBeforeNext, e2Escaped, e1Escaped⟩
   simp only at hstk hdepth ⊢
   refine ⟨fun h9 => by simp [hdepth, h9], ?_⟩
   intro hg
@@ -149,6 +149,14 @@ theorem c14_next_run_unaffected (p : Prog) (sched : List Act) (hdone : (run p sc
     refine ⟨?_, d.hreal⟩
     have := d.hout2v; rw [hdone] at this; simpa [GPc.rank] using this
 
+/-- Nothing escapes from `run(threaded=True)` or from the next execution — under every schedule,
+including the one where the student thread ends by itself between the grader's decision to give
+up on it and the `terminate()` call (`c14_intolerant_terminate_escapes` is what happens there
+when `terminate()` insists on a live thread). -/
+theorem c14_nothing_escapes (p : Prog) (sched : List Act) :
+    (run p sched).e1Escaped = false ∧ (run p sched).e2Escaped = false :=
+  ⟨(inv_run p sched).hesc1, (inv_run p sched).hesc⟩
+
 /-- "Returns within a bounded delay", as far as a schedule-level model can say it: after the
 timer fired the grader thread blocks on the student thread in exactly one situation — the
 student thread has already left the student's code, holds the claim and is running pedal's own
@@ -170,11 +178,12 @@ theorem c14_grader_waits_only_for_finalization (p : Prog) (sched : List Act)
 /-- every other grader step makes progress by itself (T's prologue is assumed done at the timer) -/
 theorem c14_grader_progress (c : Cfg) (s : St) (h1 : s.gpc ≠ .wait) (h2 : s.gpc ≠ .done)
     (h3 : s.gpc = .join → s.tpc ≠ .start) : (stepG c s).gpc ≠ s.gpc := by
-  rcases s with ⟨gpc, tpc, claim, pending, tExit, timedOut, patches, stdouts, sysStdout, buf1, buf2, real, raw, out1, out2, ctxs, id1, id2, nextId, exc, feedback, excAtReturn, depthAtReturn, excBeforeNext, e2Escaped⟩
-  rcases c with ⟨a, b, d⟩
+  rcases s with ⟨gpc, tpc, claim, pending, tExit, timedOut, patches, stdouts, sysStdout, buf1, buf2, real, raw, out1, out2, ctxs, id1, id2, nextId, exc, feedback, excAtReturn, depthAtReturn, excBeforeNext, e2Escaped, e1Escaped⟩
+  rcases c with ⟨a, b, d, e⟩
   cases gpc <;> simp_all [stepG, St.stopPatches] <;>
     first
     | (cases tpc <;> simp_all; done)
+    | (cases e <;> cases tpc <;> simp; done)
     | (cases a <;> cases tpc <;> cases claim <;> simp; done)
     | (cases b <;> cases patches <;> simp; done)
     | (cases stdouts <;> simp [St.appendOutput, St.lastCtx] <;> split <;> simp; done)
@@ -186,7 +195,7 @@ theorem c14_grader_progress (c : Cfg) (s : St) (h1 : s.gpc ≠ .wait) (h2 : s.gp
 /-- and a finalizing student thread reaches its end in at most four more of its own steps -/
 theorem c14_finalization_is_short (p : Prog) (s : St) (c : TChoice) (h : 3 ≤ s.tpc.rank) (hd : s.tpc ≠ .dead) :
     s.tpc.rank < (stepT fixed p s c).tpc.rank := by
-  rcases s with ⟨gpc, tpc, claim, pending, tExit, timedOut, patches, stdouts, sysStdout, buf1, buf2, real, raw, out1, out2, ctxs, id1, id2, nextId, exc, feedback, excAtReturn, depthAtReturn, excBeforeNext, e2Escaped⟩
+  rcases s with ⟨gpc, tpc, claim, pending, tExit, timedOut, patches, stdouts, sysStdout, buf1, buf2, real, raw, out1, out2, ctxs, id1, id2, nextId, exc, feedback, excAtReturn, depthAtReturn, excBeforeNext, e2Escaped, e1Escaped⟩
   cases tpc <;> simp [TPc.rank] at h hd <;> simp [stepT, TPc.rank, St.stopPatches, St.capture]
   cases stdouts <;> cases tExit <;> simp [TPc.rank, St.appendOutput]
 
@@ -217,6 +226,14 @@ theorem c14_pinned_late_pop :
       s.feedback = [(.timeout, .one), (.systemExit, .two)] :=
   ⟨ws 2 ++ gs 10 ++ ws 7 ++ gs 8, by decide⟩
 
+/-- The claim protocol with the original `terminate()` (`assert self.is_alive()`): the student
+code ends right after the grader won the claim, its thread is gone when `terminate()` runs, the
+AssertionError leaves `run()` with the patches still on and nothing recorded. -/
+theorem c14_intolerant_terminate_escapes :
+    ∃ sched, let s := runSched intolerant busy init sched
+      s.e1Escaped = true ∧ s.feedback = [] ∧ s.patches = [.real] ∧ s.stdouts = [.b1] ∧ s.sysStdout = .b1 :=
+  ⟨ws 2 ++ gs 2 ++ [.t .finish, .t .work] ++ gs 1, by decide⟩
+
 /-- With the protocol in place one thing remains: a thread that swallows the termination AND
 keeps printing writes into whatever `sys.stdout` currently is — the next execution's buffer. -/
 theorem c14_surviving_printer_pollutes :
@@ -228,6 +245,10 @@ theorem c14_surviving_printer_pollutes :
 
 example : (run busy (ws 2 ++ gs 8 ++ ws 7 ++ gs 9)).gpc = .done ∧
     (run busy (ws 2 ++ gs 8 ++ ws 7 ++ gs 9)).timedOut = true := by decide
+-- the student thread ends between the grader's claim and `terminate()`: still exactly the timeout
+example : (run busy (ws 2 ++ gs 2 ++ [.t .finish, .t .work] ++ gs 20)).gpc = .done ∧
+    (run busy (ws 2 ++ gs 2 ++ [.t .finish, .t .work] ++ gs 20)).feedback = [(.timeout, .one)] ∧
+    (run busy (ws 2 ++ gs 2 ++ [.t .finish, .t .work] ++ gs 20)).tpc = .dead := by decide
 -- the student code ends at the bell and claims first: no timeout, the grader waits for the finalization
 example : (run busy ([.t .work, .g, .t .finish, .t .work, .g, .g])).gpc = .wait := by decide
 example : (run busy ([.t .work, .g, .t .raise] ++ ws 5 ++ gs 12)).feedback = [(.student, .one)] := by decide
